@@ -9,8 +9,9 @@ CFG = {
                   "'already in mempool' keeps it recorded exactly once; after every RescanFinished all unconfirmed transactions are "
                   "offered, parents first. Tied to wallet/wallet.go, wtxmgr/unconfirmed.go and chain/errors.go by a differential run "
                   "with raw backend error texts passed through the real MapRPCErr code.",
-    "level_note": "Trusted: Lean kernel; the hand model Publish.lean (abstract store: removeConflict is modelled as removal of the "
-                  "descendant closure; tied by correspondence on explored inputs only); Go scheduler (the re-broadcast goroutine is "
+    "level_note": "Trusted: Lean kernel; the hand model Publish.lean (abstract store of unconfirmed records with spend edges; the literal "
+                  "depth-first removeConflict is proved equal to the descendant closure the theorems use; tied to the Go code by "
+                  "correspondence on explored inputs only); Go scheduler (the re-broadcast goroutine is "
                   "observed after it finished).",
     "lean_props": ["BtcwVerif.Props.C20"],
     "engines": ["walletchain-tx"],
